@@ -307,20 +307,54 @@ Proof. intros Hin Hc. unfold held_anywhere. apply existsb_exists. eauto. Qed.
 Lemma XInv_set_bm c s b' : XInv c s -> RInv c b' (all_holds s) (claims s) -> XInv c (xset_bm s b').
 Proof. intros [R N] R'. constructor; auto. Qed.
 
+(* the contents of the iterators' buffers, except those in X, are the same in s' *)
+Definition foot (s s' : xstate) (X : loc -> Prop) : Prop :=
+  forall l, In l (iter_bufs s) -> ~ X l -> cont (xbm s') l = cont (xbm s) l.
+
+Lemma iter_buf_tag c s l : XInv c s -> In l (iter_bufs s) -> tag (xbm s) l = Some (DB KIter).
+Proof.
+  intros [R N] Hin. unfold iter_bufs in Hin. apply in_flat_map in Hin. destruct Hin as (it & Hit & Hl).
+  apply (r_claims _ _ _ _ R l (DB KIter)).
+  unfold claims. apply in_or_app. right. apply in_or_app. right. apply in_or_app. right.
+  apply in_flat_map. exists it. split; auto. unfold iter_claims. unfold iter_buf_locs in Hl. simpl in *.
+  destruct Hl as [<-|[<-|[]]]; auto.
+Qed.
+
+Lemma foot_refl s X : foot s s X.
+Proof. intros l _ _. reflexivity. Qed.
+
+Lemma foot_trans s1 s2 s3 X : foot s1 s2 X -> foot s2 s3 X -> (forall l, In l (iter_bufs s1) -> In l (iter_bufs s2)) -> foot s1 s3 X.
+Proof. intros F1 F2 Hsub l Hl Hn. rewrite F2; auto. Qed.
+
+Lemma foot_weaken s s' (X Y : loc -> Prop) : foot s s' X -> (forall l, X l -> Y l) -> foot s s' Y.
+Proof. intros F H l Hl Hn. apply F; auto. Qed.
+
+(* a step of the buffer manager whose writes went to pooled or new locations *)
+Lemma foot_pool c s b' X : XInv c s -> conts_kept (xbm s) b' (was_pool_or_new (xbm s)) -> foot s (xset_bm s b') X.
+Proof.
+  intros Xi Q l Hl _. cbn [xbm xset_bm]. pose proof (iter_buf_tag c s l Xi Hl) as Ht. apply Q; [eapply tag_lt; eauto|].
+  eapply not_was_pool; eauto. discriminate.
+Qed.
+
+Lemma foot_none c s b' X : XInv c s -> conts_kept (xbm s) b' (fun _ => False) -> foot s (xset_bm s b') X.
+Proof.
+  intros Xi Q l Hl _. cbn [xbm xset_bm]. pose proof (iter_buf_tag c s l Xi Hl) as Ht. apply Q; [eapply tag_lt; eauto|auto].
+Qed.
+
 (* readBlockCached by somebody who will store the hold *)
 Lemma XInv_acquire c s tid bi pk : XInv c s ->
   let s' := fst (xacquire c s tid bi pk) in
-  XInv c s' /\
+  XInv c s' /\ foot s s' (fun _ => False) /\
   match snd (xacquire c s tid bi pk) with
   | Some h => hold_fits c (xbm s') (all_holds s) h /\ h_tid h = tid /\ h_bi h = bi
   | None => True
   end.
 Proof.
   intros X. pose proof X as [R N]. unfold xacquire. cbn [fst snd].
-  pose proof (acquire_spec c (xbm s) tid bi (xfile_block s tid bi) pk (r_bm _ _ _ _ R)) as (I' & T & _ & Nf & _ & _ & Hh).
+  pose proof (acquire_spec c (xbm s) tid bi (xfile_block s tid bi) pk (r_bm _ _ _ _ R)) as (I' & T & Q & Nf & _ & _ & Hh).
   assert (R' : RInv c (fst (acquire c (xbm s) tid bi (xfile_block s tid bi) pk)) (all_holds s) (claims s)).
   { eapply RInv_kept; eauto. }
-  split; [apply XInv_set_bm; auto|].
+  split; [apply XInv_set_bm; auto|]. split; [eapply foot_pool; eauto|].
   destruct (snd (acquire c (xbm s) tid bi (xfile_block s tid bi) pk)) as [h|] eqn:Eh; auto.
   destruct Hh as (Et & Eb & Hk & _). split; auto. cbn [xbm xset_bm].
   destruct (acquire_cache_kind _ _ _ _ _ _ _ Eh) as [Hc _].
@@ -337,6 +371,15 @@ Proof.
   apply RInv_release; auto. intros h' Hh Hc. eapply held_anywhere_spec; eauto.
 Qed.
 
+Lemma foot_release c s h X : XInv c s -> hold_fits c (xbm s) (all_holds s) h -> foot s (xrelease c s h) X.
+Proof.
+  intros Xi F. unfold xrelease. eapply foot_none; eauto.
+  assert (Ho : h_kind h = HOwn -> tag (xbm s) (h_loc h) = Some (DB KBlock)).
+  { intros E. unfold hold_fits in F. rewrite E in F. apply F. }
+  destruct Xi as [R _].
+  apply (release_hold_spec c (xbm s) (held_anywhere s) h (r_bm _ _ _ _ R) Ho).
+Qed.
+
 Lemma xacquire_frame c s tid bi pk :
   let s' := fst (xacquire c s tid bi pk) in
   xiters s' = xiters s /\ xcalls s' = xcalls s /\ xcvis s' = xcvis s /\ xmem s' = xmem s /\ xtxn s' = xtxn s /\
@@ -349,25 +392,35 @@ Lemma xrelease_frame c s h :
   xfiles s' = xfiles s /\ xlive s' = xlive s /\ xseq s' = xseq s /\ xsnaps s' = xsnaps s.
 Proof. unfold xrelease. cbn. repeat split. Qed.
 
+Lemma iter_bufs_eq s s' : xiters s' = xiters s -> iter_bufs s' = iter_bufs s.
+Proof. unfold iter_bufs. intros ->. reflexivity. Qed.
+
 Lemma XInv_touch c : forall ex s, XInv c s -> XInv c (touch_blocks c s ex) /\
   xiters (touch_blocks c s ex) = xiters s /\ xcalls (touch_blocks c s ex) = xcalls s /\ xcvis (touch_blocks c s ex) = xcvis s /\
   xmem (touch_blocks c s ex) = xmem s /\ xtxn (touch_blocks c s ex) = xtxn s /\ xfiles (touch_blocks c s ex) = xfiles s /\
-  xlive (touch_blocks c s ex) = xlive s /\ xseq (touch_blocks c s ex) = xseq s /\ xsnaps (touch_blocks c s ex) = xsnaps s.
+  xlive (touch_blocks c s ex) = xlive s /\ xseq (touch_blocks c s ex) = xseq s /\ xsnaps (touch_blocks c s ex) = xsnaps s /\
+  foot s (touch_blocks c s ex) (fun _ => False).
 Proof.
   induction ex as [|[[tid [bi|]] pk] ex IH]; intros s X; cbn [touch_blocks].
   - split; [exact X|repeat split].
   - destruct (xacquire c s tid bi pk) as [s1 oh] eqn:Ea.
     pose proof (XInv_acquire c s tid bi pk X) as A. pose proof (xacquire_frame c s tid bi pk) as F.
-    rewrite Ea in A, F. cbn [fst snd] in A, F. destruct A as [X1 Hh].
+    rewrite Ea in A, F. cbn [fst snd] in A, F. destruct A as (X1 & Ft1 & Hh).
     destruct F as (F1 & F2 & F3 & F4 & F5 & F6 & F7 & F8 & F9).
     destruct oh as [h|].
     + destruct Hh as [Fit _].
       assert (Eh : all_holds s1 = all_holds s) by (unfold all_holds; rewrite F1, F2; auto).
-      assert (X2 : XInv c (xrelease c s1 h)) by (apply XInv_release; auto; rewrite Eh; auto).
-      destruct (IH _ X2) as (X3 & G1 & G2 & G3 & G4 & G5 & G6 & G7 & G8 & G9).
+      assert (Fit1 : hold_fits c (xbm s1) (all_holds s1) h) by (rewrite Eh; auto).
+      assert (X2 : XInv c (xrelease c s1 h)) by (apply XInv_release; auto).
+      pose proof (foot_release c s1 h (fun _ => False) X1 Fit1) as Ft2.
+      destruct (IH _ X2) as (X3 & G1 & G2 & G3 & G4 & G5 & G6 & G7 & G8 & G9 & Ft3).
       destruct (xrelease_frame c s1 h) as (H1 & H2 & H3 & H4 & H5 & H6 & H7 & H8 & H9).
-      split; [exact X3|repeat split; congruence].
-    + destruct (IH _ X1) as (X3 & G1 & G2 & G3 & G4 & G5 & G6 & G7 & G8 & G9). split; [exact X3|repeat split; congruence].
+      split; [exact X3|]. repeat split; try congruence.
+      eapply foot_trans; [eapply foot_trans; [exact Ft1|exact Ft2|]|exact Ft3|].
+      * intros l Hl. rewrite (iter_bufs_eq s s1 F1). auto.
+      * intros l Hl. rewrite (iter_bufs_eq s1 (xrelease c s1 h) H1), (iter_bufs_eq s s1 F1). auto.
+    + destruct (IH _ X1) as (X3 & G1 & G2 & G3 & G4 & G5 & G6 & G7 & G8 & G9 & Ft3). split; [exact X3|]. repeat split; try congruence.
+      eapply foot_trans; [exact Ft1|exact Ft3|]. intros l Hl. rewrite (iter_bufs_eq s s1 F1). auto.
   - apply IH. auto.
 Qed.
 
@@ -435,15 +488,16 @@ Proof. induction l; intros [|i] x; simpl; auto. Qed.
 
 (* the table child tid of iterator i lets its block go *)
 Lemma XInv_child_drop c s i tid : XInv c s -> XInv c (child_drop c s i tid) /\ rest_kept s (child_drop c s i tid) /\
+  foot s (child_drop c s i tid) (fun _ => False) /\
   length (xiters (child_drop c s i tid)) = length (xiters s) /\
   (forall j, j <> i -> get_iter (child_drop c s i tid) j = get_iter s j) /\
   (forall it, get_iter s i = Some it ->
      get_iter (child_drop c s i tid) i = Some (it_set_held it (match hold_of_tid (xi_held it) tid with Some _ => drop_tid (xi_held it) tid | None => xi_held it end))).
 Proof.
   intros X. unfold child_drop. destruct (get_iter s i) as [it|] eqn:Ei.
-  2:{ split; auto. split; [apply rest_kept_refl|]. split; auto. split; auto. intros it H. discriminate. }
+  2:{ split; auto. split; [apply rest_kept_refl|]. split; [apply foot_refl|]. split; auto. split; auto. intros it H. discriminate. }
   destruct (hold_of_tid (xi_held it) tid) as [h|] eqn:Eh.
-  2:{ split; auto. split; [apply rest_kept_refl|]. split; auto. split; auto. intros it0 H. inversion H; subst it0. rewrite Eh.
+  2:{ split; auto. split; [apply rest_kept_refl|]. split; [apply foot_refl|]. split; auto. split; auto. intros it0 H. inversion H; subst it0. rewrite Eh.
       rewrite Ei. f_equal. destruct it; reflexivity. }
   set (it1 := it_set_held it (drop_tid (xi_held it) tid)). set (s1 := put_iter s i it1).
   destruct (holds_iter s i it Ei) as (R & P0 & P1). specialize (P1 it1). fold s1 in P1. cbn [xi_held it1 it_set_held] in P1.
@@ -457,7 +511,10 @@ Proof.
   { constructor; [|rewrite Eb; auto]. rewrite Ec. change (xbm s1) with (xbm s). eapply RInv_perm; [symmetry; exact P1|exact R2]. }
   assert (F1 : hold_fits c (xbm s1) (all_holds s1) h).
   { change (xbm s1) with (xbm s). eapply hold_fits_perm; [symmetry; exact P1|exact F2]. }
-  split; [apply XInv_release; auto|]. split; [repeat split|]. split; [unfold xrelease, s1, put_iter; cbn; apply replace_nth_length|].
+  split; [apply XInv_release; auto|]. split; [repeat split|].
+  split.
+  { intros l Hl Hn. rewrite (foot_release c s1 h (fun _ => False) X1 F1 l); auto. rewrite Eb. auto. }
+  split; [unfold xrelease, s1, put_iter; cbn; apply replace_nth_length|].
   split.
   - intros j Hj. unfold xrelease. change (get_iter (xset_bm s1 (release_hold c (xbm s1) (held_anywhere s1) h)) j) with (get_iter s1 j).
     apply get_put_iter_other. auto.
@@ -496,9 +553,52 @@ Proof.
 Qed.
 
 
+Definition same_bufs (it it' : xiter) : Prop :=
+  xi_kbuf it' = xi_kbuf it /\ xi_vbuf it' = xi_vbuf it /\ xi_srcs it' = xi_srcs it /\ xi_kind it' = xi_kind it.
+
+Definition iters_loose (i : nat) (s s' : xstate) : Prop :=
+  length (xiters s') = length (xiters s) /\
+  (forall j, j <> i -> get_iter s' j = get_iter s j) /\
+  (forall it, get_iter s i = Some it -> exists it', get_iter s' i = Some it' /\ same_bufs it it') /\
+  (get_iter s i = None -> get_iter s' i = None).
+
+Lemma iters_frame_loose i s s' : iters_frame i s s' -> iters_loose i s s'.
+Proof.
+  intros (A1 & A2 & A3 & A4). split; auto. split; auto. split; auto.
+  intros it H. destruct (A3 it H) as (it' & H' & (B1 & B2 & B3 & B4 & _)). exists it'. split; auto. repeat split; auto.
+Qed.
+
+Lemma iters_loose_refl i s : iters_loose i s s.
+Proof. apply iters_frame_loose. apply iters_frame_refl. Qed.
+
+Lemma iters_loose_trans i s1 s2 s3 : iters_loose i s1 s2 -> iters_loose i s2 s3 -> iters_loose i s1 s3.
+Proof.
+  intros (A1 & A2 & A3 & A4) (B1 & B2 & B3 & B4). split; [congruence|]. split; [intros j Hj; rewrite B2, A2; auto|]. split.
+  - intros it H. destruct (A3 it H) as (it' & H' & (S1 & S2 & S3 & S4)). destruct (B3 it' H') as (it'' & H'' & (T1 & T2 & T3 & T4)).
+    exists it''. split; auto. repeat split; congruence.
+  - auto.
+Qed.
+
+Lemma map_nth_ext {A B} (f : A -> B) : forall l l', length l = length l' ->
+  (forall j, option_map f (nth_error l j) = option_map f (nth_error l' j)) -> map f l = map f l'.
+Proof.
+  induction l as [|a l IH]; intros [|a' l'] L H; simpl in *; try discriminate; auto.
+  pose proof (H 0) as H0. simpl in H0. inversion H0. f_equal. apply IH; [lia|]. intros j. apply (H (S j)).
+Qed.
+
+Lemma iters_loose_bufs i s s' : iters_loose i s s' -> iter_bufs s' = iter_bufs s.
+Proof.
+  intros (L & O & Si & Sn). unfold iter_bufs. rewrite !flat_map_concat_map. f_equal.
+  apply map_nth_ext; auto. intros j. destruct (Nat.eq_dec j i) as [->|Hj].
+  - unfold get_iter in *. destruct (nth_error (xiters s) i) as [it|] eqn:E.
+    + destruct (Si it eq_refl) as (it' & E' & (B1 & B2 & _)). rewrite E'. simpl. unfold iter_buf_locs. rewrite B1, B2. reflexivity.
+    + rewrite (Sn eq_refl). reflexivity.
+  - unfold get_iter in O. rewrite (O j Hj). reflexivity.
+Qed.
+
 Lemma child_drop_frame c s i tid : XInv c s -> iters_frame i s (child_drop c s i tid).
 Proof.
-  intros X. destruct (XInv_child_drop c s i tid X) as (_ & _ & L & O & Si). split; auto. split; auto. split.
+  intros X. destruct (XInv_child_drop c s i tid X) as (_ & _ & _ & L & O & Si). split; auto. split; auto. split.
   - intros it H. eexists. split; [apply (Si it H)|]. repeat split.
   - intros H. unfold child_drop. rewrite H. auto.
 Qed.
@@ -531,11 +631,11 @@ Lemma XInv_acquire_store c s i tid bi pk : XInv c s ->
             | Some it2, Some h2 => put_iter (fst r) i (it_set_held it2 (h2 :: xi_held it2))
             | _, _ => fst r
             end in
-  XInv c s' /\ rest_kept s s' /\ iters_frame i s s'.
+  XInv c s' /\ rest_kept s s' /\ iters_frame i s s' /\ foot s s' (fun _ => False).
 Proof.
   intros X. cbv zeta.
   pose proof (XInv_acquire c s tid bi pk X) as A. pose proof (xacquire_frame c s tid bi pk) as F.
-  destruct (xacquire c s tid bi pk) as [s2 oh] eqn:Ea. cbn [fst snd] in *. destruct A as [X2 Hh].
+  destruct (xacquire c s tid bi pk) as [s2 oh] eqn:Ea. cbn [fst snd] in *. destruct A as (X2 & Ft2 & Hh).
   destruct F as (F1 & F2 & F3 & F4 & F5 & F6 & F7 & F8 & F9).
   assert (Rk : rest_kept s s2) by (repeat split; auto).
   assert (If : iters_frame i s s2).
@@ -543,67 +643,47 @@ Proof.
   destruct (get_iter s2 i) as [it2|] eqn:Ei; [|auto]. destruct oh as [h2|]; [|auto].
   destruct Hh as [Fit _].
   assert (Eh : all_holds s2 = all_holds s) by (unfold all_holds; rewrite F1, F2; auto).
-  split; [apply XInv_add_hold; auto; rewrite Eh; auto|]. split.
+  split; [apply XInv_add_hold; auto; rewrite Eh; auto|]. split; [|split].
   - eapply rest_kept_trans; [exact Rk|]. repeat split.
   - eapply iters_frame_trans; [exact If|]. eapply put_iter_frame; eauto. repeat split.
+  - exact Ft2.
 Qed.
 
 Lemma XInv_child_goto c s i tid bi pk : XInv c s ->
-  XInv c (child_goto c s i tid bi pk) /\ rest_kept s (child_goto c s i tid bi pk) /\ iters_frame i s (child_goto c s i tid bi pk).
+  XInv c (child_goto c s i tid bi pk) /\ rest_kept s (child_goto c s i tid bi pk) /\ iters_frame i s (child_goto c s i tid bi pk)
+  /\ foot s (child_goto c s i tid bi pk) (fun _ => False).
 Proof.
   intros X. unfold child_goto. destruct (get_iter s i) as [it|] eqn:Ei.
-  2:{ split; auto. split; [apply rest_kept_refl|apply iters_frame_refl]. }
+  2:{ split; auto. split; [apply rest_kept_refl|]. split; [apply iters_frame_refl|apply foot_refl]. }
   destruct (hold_of_tid (xi_held it) tid) as [h|] eqn:Eh.
   - destruct (Nat.eqb (h_bi h) bi).
-    + split; auto. split; [apply rest_kept_refl|apply iters_frame_refl].
-    + destruct (XInv_child_drop c s i tid X) as (X1 & K1 & _).
+    + split; auto. split; [apply rest_kept_refl|]. split; [apply iters_frame_refl|apply foot_refl].
+    + destruct (XInv_child_drop c s i tid X) as (X1 & K1 & Ft1 & _).
       pose proof (child_drop_frame c s i tid X) as F1.
       pose proof (XInv_acquire_store c (child_drop c s i tid) i tid bi pk X1) as A. cbv zeta in A.
       destruct (xacquire c (child_drop c s i tid) tid bi pk) as [s2 oh]. cbn [fst snd] in A.
-      destruct A as (X2 & K2 & F2). split; auto. split; [eapply rest_kept_trans; eauto|eapply iters_frame_trans; eauto].
+      destruct A as (X2 & K2 & F2 & Ft2). split; auto. split; [eapply rest_kept_trans; eauto|]. split; [eapply iters_frame_trans; eauto|].
+      eapply foot_trans; eauto. intros l Hl. rewrite (iters_loose_bufs i _ _ (iters_frame_loose _ _ _ F1)). auto.
   - pose proof (XInv_acquire_store c s i tid bi pk X) as A. cbv zeta in A.
     destruct (xacquire c s tid bi pk) as [s2 oh]. cbn [fst snd] in A. exact A.
 Qed.
 
 Lemma XInv_children_move c i : forall ex s, XInv c s ->
-  XInv c (children_move c s i ex) /\ rest_kept s (children_move c s i ex) /\ iters_frame i s (children_move c s i ex).
+  XInv c (children_move c s i ex) /\ rest_kept s (children_move c s i ex) /\ iters_frame i s (children_move c s i ex)
+  /\ foot s (children_move c s i ex) (fun _ => False).
 Proof.
   induction ex as [|[[tid [bi|]] pk] ex IH]; intros s X; cbn [children_move].
-  - split; auto. split; [apply rest_kept_refl|apply iters_frame_refl].
-  - destruct (XInv_child_goto c s i tid bi pk X) as (X1 & K1 & F1). destruct (IH _ X1) as (X2 & K2 & F2).
-    split; auto. split; [eapply rest_kept_trans; eauto|eapply iters_frame_trans; eauto].
-  - destruct (XInv_child_drop c s i tid X) as (X1 & K1 & _). pose proof (child_drop_frame c s i tid X) as F1.
-    destruct (IH _ X1) as (X2 & K2 & F2).
-    split; auto. split; [eapply rest_kept_trans; eauto|eapply iters_frame_trans; eauto].
+  - split; auto. split; [apply rest_kept_refl|]. split; [apply iters_frame_refl|apply foot_refl].
+  - destruct (XInv_child_goto c s i tid bi pk X) as (X1 & K1 & F1 & Ft1). destruct (IH _ X1) as (X2 & K2 & F2 & Ft2).
+    split; auto. split; [eapply rest_kept_trans; eauto|]. split; [eapply iters_frame_trans; eauto|].
+    eapply foot_trans; eauto. intros l Hl. rewrite (iters_loose_bufs i _ _ (iters_frame_loose _ _ _ F1)). auto.
+  - destruct (XInv_child_drop c s i tid X) as (X1 & K1 & Ft1 & _). pose proof (child_drop_frame c s i tid X) as F1.
+    destruct (IH _ X1) as (X2 & K2 & F2 & Ft2).
+    split; auto. split; [eapply rest_kept_trans; eauto|]. split; [eapply iters_frame_trans; eauto|].
+    eapply foot_trans; eauto. intros l Hl. rewrite (iters_loose_bufs i _ _ (iters_frame_loose _ _ _ F1)). auto.
 Qed.
 
 (* ---------------------------------------------------------------- exposing, positions *)
-
-Definition same_bufs (it it' : xiter) : Prop :=
-  xi_kbuf it' = xi_kbuf it /\ xi_vbuf it' = xi_vbuf it /\ xi_srcs it' = xi_srcs it /\ xi_kind it' = xi_kind it.
-
-Definition iters_loose (i : nat) (s s' : xstate) : Prop :=
-  length (xiters s') = length (xiters s) /\
-  (forall j, j <> i -> get_iter s' j = get_iter s j) /\
-  (forall it, get_iter s i = Some it -> exists it', get_iter s' i = Some it' /\ same_bufs it it') /\
-  (get_iter s i = None -> get_iter s' i = None).
-
-Lemma iters_frame_loose i s s' : iters_frame i s s' -> iters_loose i s s'.
-Proof.
-  intros (A1 & A2 & A3 & A4). split; auto. split; auto. split; auto.
-  intros it H. destruct (A3 it H) as (it' & H' & (B1 & B2 & B3 & B4 & _)). exists it'. split; auto. repeat split; auto.
-Qed.
-
-Lemma iters_loose_refl i s : iters_loose i s s.
-Proof. apply iters_frame_loose. apply iters_frame_refl. Qed.
-
-Lemma iters_loose_trans i s1 s2 s3 : iters_loose i s1 s2 -> iters_loose i s2 s3 -> iters_loose i s1 s3.
-Proof.
-  intros (A1 & A2 & A3 & A4) (B1 & B2 & B3 & B4). split; [congruence|]. split; [intros j Hj; rewrite B2, A2; auto|]. split.
-  - intros it H. destruct (A3 it H) as (it' & H' & (S1 & S2 & S3 & S4)). destruct (B3 it' H') as (it'' & H'' & (T1 & T2 & T3 & T4)).
-    exists it''. split; auto. repeat split; congruence.
-  - auto.
-Qed.
 
 Lemma XInv_hset c s l x : XInv c s -> XInv c (xset_hp s (hset (xhp s) l x)).
 Proof. intros [R N]. unfold xset_hp. apply XInv_set_bm; [constructor; auto|]. apply RInv_hset. auto. Qed.
@@ -624,39 +704,59 @@ Proof.
   - intros H. congruence.
 Qed.
 
+Definition bufs_of (s : xstate) (i : nat) (l : loc) : Prop := exists it, get_iter s i = Some it /\ In l (iter_buf_locs it).
+
+Lemma foot_hset s l x : foot s (xset_hp s (hset (xhp s) l x)) (fun y => y = l).
+Proof. intros y _ Hn. unfold cont, xset_hp. cbn [xbm xset_bm bh bm_hp]. apply hget_hset_other. auto. Qed.
+
 Lemma XInv_expose md c s i d kr vr : XInv c s ->
   XInv c (xexpose md c s i d kr vr) /\ rest_kept s (xexpose md c s i d kr vr) /\ iters_loose i s (xexpose md c s i d kr vr) /\
+  foot s (xexpose md c s i d kr vr) (bufs_of s i) /\
   (forall it, get_iter s i = Some it -> exists it', get_iter (xexpose md c s i d kr vr) i = Some it' /\
-        xi_held it' = xi_held it /\ xi_live it' = xi_live it /\ xi_pos it' = xi_pos it).
+        xi_held it' = xi_held it /\ xi_live it' = xi_live it /\ xi_pos it' = xi_pos it /\
+        (md (XPIterKey (xi_kind it) d) c = Copy -> rloc (xi_exk it') = xi_kbuf it) /\
+        (md (XPIterValue (xi_kind it) d) c = Copy -> rloc (xi_exv it') = xi_vbuf it)).
 Proof.
   intros X. unfold xexpose. destruct (get_iter s i) as [it|] eqn:Ei.
-  2:{ split; auto. split; [apply rest_kept_refl|]. split; [apply iters_loose_refl|]. intros it H; discriminate. }
+  2:{ split; auto. split; [apply rest_kept_refl|]. split; [apply iters_loose_refl|]. split; [apply foot_refl|]. intros it H; discriminate. }
   set (r1 := match md (XPIterKey (xi_kind it) d) c with
              | Copy => (xset_hp s (hset (xhp s) (xi_kbuf it) (deref (xhp s) kr)), mkref (xi_kbuf it) 0 (length (deref (xhp s) kr)))
              | Slice => (s, kr) end).
-  assert (A1 : XInv c (fst r1) /\ rest_kept s (fst r1) /\ xiters (fst r1) = xiters s).
+  assert (A1 : XInv c (fst r1) /\ rest_kept s (fst r1) /\ xiters (fst r1) = xiters s /\ foot s (fst r1) (fun y => y = xi_kbuf it)).
   { unfold r1. destruct (md (XPIterKey (xi_kind it) d) c); cbn [fst].
-    - split; [apply XInv_hset; auto|]. split; repeat split.
-    - split; auto. split; [apply rest_kept_refl|auto]. }
-  destruct r1 as [s1 ek]. cbn [fst] in A1. destruct A1 as (X1 & K1 & E1).
+    - split; [apply XInv_hset; auto|]. split; [repeat split|]. split; [reflexivity|apply foot_hset].
+    - split; auto. split; [apply rest_kept_refl|]. split; [auto|apply foot_refl]. }
+  pose (r1x := r1). assert (A1x : r1x = r1) by reflexivity. unfold r1 in r1x.
+  destruct r1 as [s1 ek]. cbn [fst] in A1. destruct A1 as (X1 & K1 & E1 & Ft1).
   set (r2 := match md (XPIterValue (xi_kind it) d) c with
              | Copy => (xset_hp s1 (hset (xhp s1) (xi_vbuf it) (deref (xhp s) vr)), mkref (xi_vbuf it) 0 (length (deref (xhp s) vr)))
              | Slice => (s1, vr) end).
-  assert (A2 : XInv c (fst r2) /\ rest_kept s1 (fst r2) /\ xiters (fst r2) = xiters s1).
+  assert (A2 : XInv c (fst r2) /\ rest_kept s1 (fst r2) /\ xiters (fst r2) = xiters s1 /\ foot s1 (fst r2) (fun y => y = xi_vbuf it)).
   { unfold r2. destruct (md (XPIterValue (xi_kind it) d) c); cbn [fst].
-    - split; [apply XInv_hset; auto|]. split; repeat split.
-    - split; auto. split; [apply rest_kept_refl|auto]. }
-  destruct r2 as [s2 ev]. cbn [fst] in A2. destruct A2 as (X2 & K2 & E2).
+    - split; [apply XInv_hset; auto|]. split; [repeat split|]. split; [reflexivity|apply foot_hset].
+    - split; auto. split; [apply rest_kept_refl|]. split; [auto|apply foot_refl]. }
+  pose (r2x := r2). assert (A2x : r2x = r2) by reflexivity. unfold r2 in r2x.
+  destruct r2 as [s2 ev]. cbn [fst] in A2. destruct A2 as (X2 & K2 & E2 & Ft2).
   assert (Ei2 : get_iter s2 i = Some it) by (unfold get_iter in *; rewrite E2, E1; auto).
   rewrite Ei2.
   split; [eapply XInv_put_same_held; eauto|].
   split; [eapply rest_kept_trans; [exact K1|]; eapply rest_kept_trans; [exact K2|]; repeat split|].
   assert (L0 : iters_loose i s s2).
   { split; [congruence|]. unfold get_iter. rewrite E2, E1. split; auto. split; auto. intros it0 H. exists it0. split; auto. repeat split. }
-  split.
+  split; [|split].
   - eapply iters_loose_trans; [exact L0|]. eapply put_iter_loose; eauto. repeat split.
-  - intros it0 H. inversion H; subst it0. eexists. split; [eapply get_put_iter; eauto|]. repeat split.
+  - intros l Hl Hn. change (cont (xbm (put_iter s2 i (it_set_ex it ek ev))) l) with (cont (xbm s2) l).
+    assert (Nk : l <> xi_kbuf it) by (intros ->; apply Hn; exists it; split; auto; left; auto).
+    assert (Nv : l <> xi_vbuf it) by (intros ->; apply Hn; exists it; split; auto; right; left; auto).
+    rewrite Ft2; auto. rewrite (iter_bufs_eq s s1 E1). auto.
+  - intros it0 H. inversion H; subst it0. eexists. split; [eapply get_put_iter; eauto|]. cbn [xi_held xi_live xi_pos xi_exk xi_exv it_set_ex].
+    repeat split.
+    + intros Em. revert A1x. unfold r1x. rewrite Em. intros A1x. inversion A1x; subst. reflexivity.
+    + intros Em. revert A2x. unfold r2x. rewrite Em. intros A2x. inversion A2x; subst. reflexivity.
 Qed.
+
+Lemma foot_set_pos s i p X : foot s (set_pos_of s i p) X.
+Proof. intros l _ _. unfold set_pos_of. destruct (get_iter s i); reflexivity. Qed.
 
 Lemma XInv_set_pos c s i p : XInv c s -> XInv c (set_pos_of s i p) /\ rest_kept s (set_pos_of s i p) /\ iters_loose i s (set_pos_of s i p) /\
   (forall it, get_iter s i = Some it -> get_iter (set_pos_of s i p) i = Some (it_set_pos it p)).
@@ -667,33 +767,61 @@ Proof.
   intros it0 H. inversion H; subst. eapply get_put_iter; eauto.
 Qed.
 
-Lemma XInv_iter_move md c s i m ex pk : XInv c s ->
-  let s' := fst (xiter_move md c s i m ex pk) in XInv c s' /\ rest_kept s s' /\ iters_loose i s s'.
+Lemma bufs_of_loose i s s' l : iters_loose i s s' -> bufs_of s' i l -> bufs_of s i l.
 Proof.
-  intros X. cbv zeta. unfold xiter_move.
-  assert (Same : XInv c s /\ rest_kept s s /\ iters_loose i s s) by (split; auto; split; [apply rest_kept_refl|apply iters_loose_refl]).
+  intros (L & O & Si & Sn) (it' & E' & Hl). destruct (get_iter s i) as [it|] eqn:E.
+  - destruct (Si it eq_refl) as (it2 & E2 & (B1 & B2 & _)). rewrite E2 in E'. inversion E'; subst it2.
+    exists it. split; auto. unfold iter_buf_locs in *. rewrite <- B1, <- B2. auto.
+  - rewrite (Sn eq_refl) in E'. discriminate.
+Qed.
+
+Definition moved c i s s' : Prop := XInv c s' /\ rest_kept s s' /\ iters_loose i s s' /\ foot s s' (bufs_of s i).
+
+Lemma moved_refl c i s : XInv c s -> moved c i s s.
+Proof. intros X. split; auto. split; [apply rest_kept_refl|]. split; [apply iters_loose_refl|apply foot_refl]. Qed.
+
+Lemma moved_trans c i s1 s2 s3 : moved c i s1 s2 -> moved c i s2 s3 -> moved c i s1 s3.
+Proof.
+  intros (X2 & K2 & L2 & F2) (X3 & K3 & L3 & F3). split; auto. split; [eapply rest_kept_trans; eauto|].
+  split; [eapply iters_loose_trans; eauto|].
+  eapply foot_trans; [exact F2| |intros l Hl; rewrite (iters_loose_bufs i _ _ L2); auto].
+  eapply foot_weaken; [exact F3|]. intros l Hl. eapply bufs_of_loose; eauto.
+Qed.
+
+Lemma XInv_iter_move md c s i m ex pk : XInv c s -> moved c i s (fst (xiter_move md c s i m ex pk)).
+Proof.
+  intros X. unfold xiter_move.
+  pose proof (moved_refl c i s X) as Same.
   destruct (get_iter s i) as [it|] eqn:Ei; [|exact Same].
   destruct (xi_live it); [|exact Same].
   destruct (land (xi_srcs it) (xi_pos it) m _) as [p|]; [|exact Same].
-  destruct (XInv_children_move c i ex s X) as (X1 & K1 & F1). apply iters_frame_loose in F1.
+  destruct (XInv_children_move c i ex s X) as (X1 & K1 & F1 & Ft1). apply iters_frame_loose in F1.
   set (s1 := children_move c s i ex) in *.
-  assert (Pos : forall s2, XInv c s2 -> rest_kept s s2 -> iters_loose i s s2 ->
-                XInv c (set_pos_of s2 i p) /\ rest_kept s (set_pos_of s2 i p) /\ iters_loose i s (set_pos_of s2 i p)).
-  { intros s2 X2 K2 L2. destruct (XInv_set_pos c s2 i p X2) as (X3 & K3 & L3 & _).
-    split; auto. split; [eapply rest_kept_trans; eauto|eapply iters_loose_trans; eauto]. }
-  assert (Exp : forall s2 d kr vr, XInv c s2 -> rest_kept s s2 -> iters_loose i s s2 ->
-                XInv c (set_pos_of (xexpose md c s2 i d kr vr) i p) /\ rest_kept s (set_pos_of (xexpose md c s2 i d kr vr) i p)
-                /\ iters_loose i s (set_pos_of (xexpose md c s2 i d kr vr) i p)).
-  { intros s2 d kr vr X2 K2 L2. destruct (XInv_expose md c s2 i d kr vr X2) as (X3 & K3 & L3 & _).
-    apply Pos; auto; [eapply rest_kept_trans; eauto|eapply iters_loose_trans; eauto]. }
+  assert (M1 : moved c i s s1).
+  { split; auto. split; auto. split; auto. eapply foot_weaken; [exact Ft1|]. intros l []. }
+  assert (Pos : forall s2, moved c i s s2 -> moved c i s (set_pos_of s2 i p)).
+  { intros s2 M2. eapply moved_trans; [exact M2|]. destruct M2 as (X2 & _).
+    destruct (XInv_set_pos c s2 i p X2) as (X3 & K3 & L3 & _). split; auto. split; auto. split; auto. apply foot_set_pos. }
+  assert (Exp : forall s2 d kr vr, moved c i s s2 -> moved c i s (set_pos_of (xexpose md c s2 i d kr vr) i p)).
+  { intros s2 d kr vr M2. apply Pos. eapply moved_trans; [exact M2|]. destruct M2 as (X2 & _).
+    destruct (XInv_expose md c s2 i d kr vr X2) as (X3 & K3 & L3 & F3 & _). split; auto. }
   destruct p as [|n|]; cbn [fst]; try (apply Pos; assumption).
   destruct (nth_error (xi_srcs it) n) as [[k [e|tid bi d]]|]; cbn [fst]; try (apply Pos; assumption).
   - apply Exp; auto.
-  - destruct (XInv_child_goto c s1 i tid bi pk X1) as (X2 & K2 & F2). apply iters_frame_loose in F2.
-    assert (K12 : rest_kept s (child_goto c s1 i tid bi pk)) by (eapply rest_kept_trans; eauto).
-    assert (L12 : iters_loose i s (child_goto c s1 i tid bi pk)) by (eapply iters_loose_trans; eauto).
-    destruct (get_iter (child_goto c s1 i tid bi pk) i) as [it2|]; cbn [fst]; [|split; auto].
+  - destruct (XInv_child_goto c s1 i tid bi pk X1) as (X2 & K2 & F2 & Ft2). apply iters_frame_loose in F2.
+    assert (M2 : moved c i s (child_goto c s1 i tid bi pk)).
+    { eapply moved_trans; [exact M1|]. split; auto. split; auto. split; auto. eapply foot_weaken; [exact Ft2|]. intros l []. }
+    destruct (get_iter (child_goto c s1 i tid bi pk) i) as [it2|]; cbn [fst]; [|exact M2].
     destruct (hold_of_tid (xi_held it2) tid); cbn [fst]; [apply Exp; auto|apply Pos; auto].
+Qed.
+
+Lemma XInv_iter_move2 md c s i m ex pk ex2 : XInv c s -> moved c i s (fst (xiter_move2 md c s i m ex pk ex2)).
+Proof.
+  intros X. unfold xiter_move2. cbn [fst]. pose proof (XInv_iter_move md c s i m ex pk X) as M.
+  destruct (snd (xiter_move md c s i m ex pk)) as [[| |[|]|]|]; auto.
+  eapply moved_trans; [exact M|]. destruct M as (X1 & _).
+  destruct (XInv_children_move c i ex2 _ X1) as (X2 & K2 & F2 & Ft2). split; auto. split; auto.
+  split; [apply iters_frame_loose; auto|]. eapply foot_weaken; [exact Ft2|]. intros l [].
 Qed.
 
 (* ---------------------------------------------------------------- releasing and creating iterators *)
@@ -702,14 +830,18 @@ Lemma RInv_app_r c b A R K : RInv c b (A ++ R) K -> RInv c b R K.
 Proof. induction A; simpl; auto. intros H. apply IHA. apply (RInv_tail _ _ _ _ _ H). Qed.
 
 Lemma XInv_release_all c i : forall fuel s, XInv c s ->
-  XInv c (release_all c s i fuel) /\ rest_kept s (release_all c s i fuel) /\ iters_frame i s (release_all c s i fuel).
+  XInv c (release_all c s i fuel) /\ rest_kept s (release_all c s i fuel) /\ iters_frame i s (release_all c s i fuel)
+  /\ foot s (release_all c s i fuel) (fun _ => False).
 Proof.
   induction fuel; intros s X; cbn [release_all].
-  - split; auto. split; [apply rest_kept_refl|apply iters_frame_refl].
-  - assert (Same : XInv c s /\ rest_kept s s /\ iters_frame i s s) by (split; auto; split; [apply rest_kept_refl|apply iters_frame_refl]).
+  - split; auto. split; [apply rest_kept_refl|]. split; [apply iters_frame_refl|apply foot_refl].
+  - assert (Same : XInv c s /\ rest_kept s s /\ iters_frame i s s /\ foot s s (fun _ => False))
+      by (split; auto; split; [apply rest_kept_refl|]; split; [apply iters_frame_refl|apply foot_refl]).
     destruct (get_iter s i) as [it|]; [|exact Same]. destruct (xi_held it) as [|h hs]; [exact Same|].
-    destruct (XInv_child_drop c s i (h_tid h) X) as (X1 & K1 & _). pose proof (child_drop_frame c s i (h_tid h) X) as F1.
-    destruct (IHfuel _ X1) as (X2 & K2 & F2). split; auto. split; [eapply rest_kept_trans; eauto|eapply iters_frame_trans; eauto].
+    destruct (XInv_child_drop c s i (h_tid h) X) as (X1 & K1 & Ft1 & _). pose proof (child_drop_frame c s i (h_tid h) X) as F1.
+    destruct (IHfuel _ X1) as (X2 & K2 & F2 & Ft2). split; auto. split; [eapply rest_kept_trans; eauto|].
+    split; [eapply iters_frame_trans; eauto|].
+    eapply foot_trans; eauto. intros l Hl. rewrite (iters_loose_bufs i _ _ (iters_frame_loose _ _ _ F1)). auto.
 Qed.
 
 Lemma XInv_kill c s i it : XInv c s -> get_iter s i = Some it -> XInv c (put_iter s i (it_kill it)).
@@ -721,16 +853,19 @@ Proof.
 Qed.
 
 Lemma XInv_iter_release c s i : XInv c s ->
-  XInv c (xiter_release c s i) /\ rest_kept s (xiter_release c s i) /\ iters_loose i s (xiter_release c s i).
+  XInv c (xiter_release c s i) /\ rest_kept s (xiter_release c s i) /\ iters_loose i s (xiter_release c s i)
+  /\ foot s (xiter_release c s i) (fun _ => False).
 Proof.
   intros X. unfold xiter_release.
-  assert (Same : XInv c s /\ rest_kept s s /\ iters_loose i s s) by (split; auto; split; [apply rest_kept_refl|apply iters_loose_refl]).
+  assert (Same : XInv c s /\ rest_kept s s /\ iters_loose i s s /\ foot s s (fun _ => False))
+    by (split; auto; split; [apply rest_kept_refl|]; split; [apply iters_loose_refl|apply foot_refl]).
   destruct (get_iter s i) as [it|] eqn:Ei; [|exact Same]. destruct (xi_live it); [|exact Same].
-  destruct (XInv_release_all c i (length (xi_held it)) s X) as (X1 & K1 & F1).
+  destruct (XInv_release_all c i (length (xi_held it)) s X) as (X1 & K1 & F1 & Ft1).
   destruct (get_iter (release_all c s i (length (xi_held it))) i) as [it1|] eqn:E1.
   - split; [apply XInv_kill; auto|]. split; [eapply rest_kept_trans; [exact K1|repeat split]|].
-    eapply iters_loose_trans; [apply iters_frame_loose; exact F1|]. eapply put_iter_loose; eauto. repeat split.
-  - split; auto. split; auto. apply iters_frame_loose. auto.
+    split; [eapply iters_loose_trans; [apply iters_frame_loose; exact F1|]; eapply put_iter_loose; eauto; repeat split|].
+    intros l Hl Hn. apply Ft1; auto.
+  - split; auto. split; auto. split; [apply iters_frame_loose; auto|auto].
 Qed.
 
 Lemma XInv_alloc_claim c s x o : XInv c s -> claim_ok o = true ->
@@ -794,14 +929,14 @@ Qed.
 Lemma XInv_get_begin c s a k ex pk : XInv c s -> XInv c (xget_begin c s a k ex pk).
 Proof.
   intros X. unfold xget_begin.
-  destruct (XInv_touch c ex s X) as (X1 & T1 & T2 & T3 & T4 & T5 & T6 & T7 & T8 & T9).
+  destruct (XInv_touch c ex s X) as (X1 & T1 & T2 & T3 & T4 & T5 & T6 & T7 & T8 & T9 & _).
   set (s1 := touch_blocks c s ex) in *.
   assert (Plain : forall s2, XInv c s2 ->
             XInv c (xset_calls s2 (xcalls s2 ++ [{| c_kind := kind_of a; c_src := xfind s a k; c_hold := None; c_done := false |}]))).
   { intros s2 [R N]. constructor; auto. cbn [xbm xset_calls]. eapply RInv_perm; [symmetry; apply holds_add_call|]. simpl. exact R. }
   destruct (xfind s a k) as [[e|tid bi d]|] eqn:Ef; try (apply Plain; auto).
   pose proof (XInv_acquire c s1 tid bi pk X1) as A. pose proof (xacquire_frame c s1 tid bi pk) as F.
-  destruct (xacquire c s1 tid bi pk) as [s2 oh]. cbn [fst snd] in A, F. destruct A as [X2 Hh].
+  destruct (xacquire c s1 tid bi pk) as [s2 oh]. cbn [fst snd] in A, F. destruct A as (X2 & _ & Hh).
   destruct oh as [h|]; [|apply Plain; auto].
   destruct Hh as [Fit _]. destruct F as (F1 & F2 & _).
   assert (Eh : all_holds s2 = all_holds s1) by (unfold all_holds; rewrite F1, F2; auto).
@@ -1069,7 +1204,7 @@ Proof.
   - apply XInv_get_begin; auto.
   - apply XInv_get_end; auto.
   - apply XInv_new_iter; auto.
-  - apply XInv_iter_move; auto.
+  - apply XInv_iter_move2; auto.
   - auto.
   - apply XInv_iter_release; auto.
   - apply XInv_txn_open; auto.
